@@ -15,6 +15,7 @@ Checks checksFor(const std::string& p)
     Checks c;
     if (p == "C01") { c.canon = true; c.audit = false; }
     else if (p == "C08" || p == "C20") { c.canon = true; }
+    else if (p == "C09") { c.canon = true; c.audit = true; }     // images and products must give canonical, rule-abiding results too
     else if (p == "C02") { c.audit = true; }
     else if (p == "C06") { c.recount = true; c.allslots = true; }
     else if (p == "C07") { c.cachecount = true; c.allslots = true; }
